@@ -14,12 +14,13 @@ Notation gate := (@gate V).
 Notation http_step := (http_step veqb).
 
 (* a request is accepted only if it passed every gate *)
-Theorem gate_sound (rq : request) c q : gate rq = Accept c q ->
+Theorem gate_sound (rq : request) c q : is_api (rq_endpoint rq) = true -> gate rq = Accept c q ->
   rq_meth rq = MPost /\ rq_ctype rq = CTJson /\ rq_hdr rq = HSetec
   /\ identity (rq_addr_ok rq) (rq_whois rq) = Some c
   /\ decode (rq_endpoint rq) (rq_body rq) (rq_empty rq) = Some q.
 Proof.
-  unfold Http.gate. destruct (rq_meth rq); try discriminate. destruct (rq_ctype rq); try discriminate.
+  unfold Http.gate. intros ->. unfold api_gate.
+  destruct (rq_meth rq); try discriminate. destruct (rq_ctype rq); try discriminate.
   destruct (rq_hdr rq); try discriminate.
   destruct (identity (rq_addr_ok rq) (rq_whois rq)) as [c'|]; try discriminate.
   destruct (decode (rq_endpoint rq) (rq_body rq) (rq_empty rq)) as [q'|]; try discriminate.
@@ -27,13 +28,13 @@ Proof.
 Qed.
 
 (* and conversely: any failing gate rejects *)
-Theorem gate_complete (rq : request) :
+Theorem gate_complete (rq : request) : is_api (rq_endpoint rq) = true ->
   (rq_meth rq <> MPost \/ rq_ctype rq <> CTJson \/ rq_hdr rq <> HSetec
    \/ identity (rq_addr_ok rq) (rq_whois rq) = None
    \/ decode (rq_endpoint rq) (rq_body rq) (rq_empty rq) = None) ->
   exists st, gate rq = Reject st.
 Proof.
-  unfold Http.gate. intros H.
+  unfold Http.gate. intros -> H. unfold api_gate.
   destruct (rq_meth rq); try (eexists; reflexivity).
   destruct (rq_ctype rq); try (eexists; reflexivity).
   destruct (rq_hdr rq); try (eexists; reflexivity).
@@ -47,7 +48,10 @@ Theorem reject_inert ev (s : dbstate V) (rq : request) st : gate rq = Reject st 
   400 <= st < 600 /\ http_step ev s rq = (s, {| status := st; rb := BodyConst |}, []).
 Proof.
   intro G. unfold Http.http_step. rewrite G. split; [|reflexivity].
-  unfold Http.gate in G. destruct (rq_meth rq); try (injection G as <-; lia).
+  unfold Http.gate in G. destruct (is_api (rq_endpoint rq)).
+  2:{ unfold html_gate in G. destruct (rq_meth rq); try (injection G as <-; lia).
+      destruct (identity (rq_addr_ok rq) (rq_whois rq)); try discriminate; injection G as <-; lia. }
+  unfold api_gate in G. destruct (rq_meth rq); try (injection G as <-; lia).
   destruct (rq_ctype rq); try (injection G as <-; lia).
   destruct (rq_hdr rq); try (injection G as <-; lia).
   destruct (identity (rq_addr_ok rq) (rq_whois rq)); try (injection G as <-; lia).
@@ -84,6 +88,27 @@ Proof.
   - intro H; injection H as _ <- _. auto.
   - destruct (db_step veqb ev s c (dispatch q)) as [[s1 r] fx1]. intro H; injection H as _ <- _.
     destruct r; cbn; auto; intro N; contradiction N; reflexivity.
+Qed.
+
+(* ---------- the HTML listing ---------- *)
+(* the page is served only to a GET from an identified caller, and is then exactly that caller's List call *)
+Theorem html_gate_exact (rq : request) c q : rq_endpoint rq = EHtml ->
+  (gate rq = Accept c q <->
+   rq_meth rq = MGet /\ identity (rq_addr_ok rq) (rq_whois rq) = Some c /\ q = QList).
+Proof.
+  intro E. unfold Http.gate. rewrite E. cbn [is_api]. unfold html_gate.
+  destruct (rq_meth rq); try (split; [discriminate|intros (Q & _); discriminate]).
+  destruct (identity (rq_addr_ok rq) (rq_whois rq)) as [c'|].
+  - split; [intro H; injection H as <- <-; auto|intros (_ & Q & ->); injection Q as <-; reflexivity].
+  - split; [discriminate|intros (_ & Q & _); discriminate].
+Qed.
+
+Theorem html_is_list ev (s : dbstate V) (rq : request) c :
+  rq_endpoint rq = EHtml -> rq_meth rq = MGet -> identity (rq_addr_ok rq) (rq_whois rq) = Some c ->
+  http_step ev s rq = (let '(s', r, fx) := db_step veqb ev s c OList in (s', respond r, fx)).
+Proof.
+  intros E M I. unfold Http.http_step, Http.gate. rewrite E. cbn [is_api]. unfold html_gate. rewrite M, I.
+  reflexivity.
 Qed.
 
 (* identity, exactly *)
